@@ -811,6 +811,27 @@ fn inflight_exec_inner(case: &InflightCase, st: &mut Stats, step: &Cell<usize>, 
                     model.remove(b);
                     restart = restart.max(case.blocks[*b] as u64);
                 }
+                // a peer that prune drops from the table (and reports for disconnection) leaves:
+                // its remaining requests are released with it (behaviour since fix 0ae6d99; before
+                // it they stayed recorded under a peer that was no longer tracked)
+                let gone: Vec<usize> = model
+                    .iter()
+                    .filter(|(_, e)| dropped.iter().any(|p| e.peer as usize == p.value()))
+                    .map(|(b, _)| *b)
+                    .collect();
+                for b in &gone {
+                    model.remove(b);
+                    if real.inflight_state_by_block(&keys[*b]).is_some() {
+                        vfail!(
+                            "inflight:prune:kept-request-of-dropped-peer",
+                            "op {k}: prune({tip}) dropped a peer but block {b} (number {}) is still recorded as in flight from it",
+                            case.blocks[*b]
+                        );
+                    }
+                }
+                if !gone.is_empty() {
+                    labels.insert("inflight/prune-released-requests-of-dropped-peer");
+                }
                 if !timed.is_empty() {
                     timeout_prune = true;
                     labels.insert("inflight/prune-timeout");
